@@ -244,6 +244,48 @@ impl<'a> TypeVisitor for RunC04<'a> {
     }
 }
 
+#[derive(serde::Serialize, serde::Deserialize, PartialEq, Debug)]
+struct Borrowed<'a> {
+    #[serde(borrow)]
+    name: &'a str,
+    #[serde(borrow, with = "serde_bytes")]
+    data: &'a [u8],
+    #[serde(borrow)]
+    opt: Option<&'a str>,
+    #[serde(borrow)]
+    cow: std::borrow::Cow<'a, str>,
+    #[serde(borrow)]
+    more: Vec<&'a serde_bytes::Bytes>,
+}
+
+fn check_borrowed(data: &[u8], name: &str, opt: Option<&str>, more: &[Vec<u8>]) -> CaseResult {
+    let case = || json!({"borrowed": {"data": data, "name": name, "opt": opt, "more": more}});
+    let fail = |ty: &str, stage: &str, msg: String| Failure::new(format!("C04 type={} stage={}", ty, stage), msg, case());
+    let x = Borrowed { name, data, opt, cow: std::borrow::Cow::Borrowed(name), more: more.iter().map(|m| serde_bytes::Bytes::new(m)).collect() };
+    let v = match catch(|| serde_lexpr::to_value(&x)) {
+        Ok(Ok(v)) => v,
+        Ok(Err(e)) => return Err(fail("Borrowed", "to_value error", e.to_string())),
+        Err(pm) => return Err(fail("Borrowed", "to_value panic", pm)),
+    };
+    match catch(|| serde_lexpr::from_value::<Borrowed>(&v).map(|y| y == x)) {
+        Ok(Ok(true)) => {}
+        Ok(Ok(false)) => return Err(fail("Borrowed", "from_value changed", format!("{:?} came back different from {}", x, v))),
+        Ok(Err(e)) => return Err(fail("Borrowed", "from_value error", format!("{:?} serialized to {} is rejected: {}", x, v, e))),
+        Err(pm) => return Err(fail("Borrowed", "from_value panic", pm)),
+    }
+    // the parts on their own
+    let b = serde_bytes::Bytes::new(data);
+    match serde_lexpr::to_value(b).map_err(|e| e.to_string()).and_then(|v| serde_lexpr::from_value::<&serde_bytes::Bytes>(&v).map(|y| y == b).map_err(|e| e.to_string())) {
+        Ok(true) => {}
+        other => return Err(fail("&Bytes", "from_value", format!("a borrowed byte buffer of {} bytes did not come back: {:?}", data.len(), other))),
+    }
+    match serde_lexpr::to_value(name).map_err(|e| e.to_string()).and_then(|v| serde_lexpr::from_value::<&str>(&v).map(|y| y == name).map_err(|e| e.to_string())) {
+        Ok(true) => {}
+        other => return Err(fail("&str", "from_value", format!("the borrowed string {:?} did not come back: {:?}", name, other))),
+    }
+    Ok(Eval::new(true, digest_of(&(data, name, opt, more))).class("borrowed"))
+}
+
 fn run_c04(ctx: &mut Ctx) {
     let tier = ctx.tier;
     let mut v = RunC04 { cases: tier.pick(400, 25_000), ctx };
@@ -263,6 +305,14 @@ fn run_c04(ctx: &mut Ctx) {
         }
         sweep!(i8, i16, i32, i64, u8, u16, u32, u64);
     }
+    // types that borrow from the value they are read from (value path only:
+    // the text entry points need an owned target)
+    ctx.run_prop(
+        "borrowed",
+        tier.pick(2000, 50_000),
+        (crate::gen::g_bytes(24), g_str(), proptest::option::of(g_str()), proptest::collection::vec(crate::gen::g_bytes(6), 0..3)),
+        |(data, name, opt, more)| check_borrowed(data, name, opt.as_deref(), more),
+    );
     // NaN on the value path
     for bits in [f64::NAN.to_bits(), 0x7ff0_0000_0000_0001u64, 0xfff8_0000_0000_0000u64] {
         let x = f64::from_bits(bits);
@@ -281,7 +331,7 @@ fn run_c04(ctx: &mut Ctx) {
     ctx.add_sample("roundtrip", json!({"type": "E", "value": "E::St{foo:true,bar:3}", "sexp": serde_lexpr::to_string(&E::St { foo: true, bar: 3 }).unwrap_or_default()}));
     ctx.add_sample("roundtrip", json!({"type": "Option<Option<u8>>", "value": "Some(None)", "sexp": serde_lexpr::to_string(&Some(None::<u8>)).unwrap_or_default()}));
     ctx.add_sample("roundtrip", json!({"type": "WithOpt", "sexp": serde_lexpr::to_string(&WithOpt { a: Some(1), b: (), c: None, d: UnitS, e: Some(None) }).unwrap_or_default()}));
-    ctx.required_classes = vec!["E", "Tree", "Holder", "Option<Option<u8>>", "f32", "u64", "ByteBuf", "BTreeMap<Key,Option<u8>>", "Tup0", "path:value+text", "path:value-only", "inj:distinct-pair"];
+    ctx.required_classes = vec!["E", "Tree", "Holder", "Option<Option<u8>>", "f32", "u64", "ByteBuf", "BTreeMap<Key,Option<u8>>", "Tup0", "path:value+text", "path:value-only", "inj:distinct-pair", "borrowed"];
 }
 
 struct ReplayC04<'a> {
@@ -310,6 +360,13 @@ impl<'a> TypeVisitor for ReplayC04<'a> {
 }
 
 fn replay_c04(_sub: &str, case: &Json) -> Option<CaseResult> {
+    if let Some(b) = case.get("borrowed") {
+        let data: Vec<u8> = serde_json::from_value(b["data"].clone()).ok()?;
+        let name: String = serde_json::from_value(b["name"].clone()).ok()?;
+        let opt: Option<String> = serde_json::from_value(b["opt"].clone()).ok()?;
+        let more: Vec<Vec<u8>> = serde_json::from_value(b["more"].clone()).ok()?;
+        return Some(check_borrowed(&data, &name, opt.as_deref(), &more));
+    }
     let name = case.get("type")?.as_str()?.to_string();
     let mut r = ReplayC04 { name: &name, case, out: None };
     for_each_type(&mut r);
